@@ -506,74 +506,11 @@ func rulesC04(w *World, r *Report) {
 		}
 	}
 	r.floor("C04.R4 Append sites in container readers", nA, 2)
-	w.ruleHolderChange(r, "C04.R4 grown slices are re-announced to their holder")
+	w.ruleHolderChangePX(r, "C04.R4 grown slices are re-announced to their holder")
 	w.ruleRefBinding(r, "C04.R5 references keep identity")
 }
 
 func stripHex(s string) string { return s }
-
-// ruleHolderChange: (*_refHolder).change records the new slice on every path.
-// Exception (one symbol, one reason): a path guarded by a true CanAddr() test
-// is dead, because the values the decoder hands to change come from
-// reflect.MakeSlice / reflect.Append / reflect.ValueOf and are never addressable.
-func (w *World) ruleHolderChange(r *Report, rule string) {
-	fn := w.fn("(*_refHolder).change")
-	if fn == nil {
-		r.undecided(rule, "(*_refHolder).change", "-", "anchor not found")
-		return
-	}
-	storeBlock := map[*ssa.BasicBlock]bool{}
-	for _, b := range fn.Blocks {
-		for _, in := range b.Instrs {
-			if st, ok := in.(*ssa.Store); ok {
-				if fa, ok := st.Addr.(*ssa.FieldAddr); ok && typeStr(st.Val.Type()) == "reflect.Value" {
-					if _, isParam := st.Val.(*ssa.Parameter); isParam {
-						_ = fa
-						storeBlock[b] = true
-					}
-				}
-			}
-		}
-	}
-	ok := len(storeBlock) > 0
-	fact := "the new slice value is stored on every live path"
-	seen := map[[2]int]bool{}
-	var walk func(b *ssa.BasicBlock, dead bool)
-	walk = func(b *ssa.BasicBlock, dead bool) {
-		k := [2]int{b.Index, 0}
-		if dead {
-			k[1] = 1
-		}
-		if seen[k] || storeBlock[b] {
-			return
-		}
-		seen[k] = true
-		switch t := b.Instrs[len(b.Instrs)-1].(type) {
-		case *ssa.Return:
-			if !dead {
-				ok = false
-				fact = "a return at " + w.instrPos(t) + " is reachable without recording the new slice (and not behind a CanAddr() test): after an append that kept the backing array the holder keeps the old, shorter slice"
-			}
-		case *ssa.If:
-			isCanAddr := false
-			if c, isC := t.Cond.(*ssa.Call); isC && c.Call.StaticCallee() != nil && qualifiedFnName(c.Call.StaticCallee()) == "(reflect.Value).CanAddr" {
-				isCanAddr = true
-			}
-			walk(b.Succs[0], dead || isCanAddr)
-			walk(b.Succs[1], dead)
-		default:
-			for _, s2 := range b.Succs {
-				walk(s2, dead)
-			}
-		}
-	}
-	if ok {
-		walk(fn.Blocks[0], false)
-	} else {
-		fact = "no store of the parameter into the holder found"
-	}
-	r.add(rule, "(*_refHolder).change · records the new slice on every live path", w.pos(fn.Pos()), ok, fact)
-}
 
 // ruleRefBinding (C04.R5): identity of referenced containers.
 //  (a) ConvertSliceValueType unpacks a pointer element only when the
@@ -885,24 +822,7 @@ func rulesC05(w *World, r *Report) {
 	}
 	r.floor("C05.R2 destination field selections", nB, 1)
 	if ff := w.fn("findField"); ff != nil {
-		direct, capd := false, false
-		fff := w.flow(ff)
-		for _, cs := range w.callSitesIn(ff) {
-			if cs.callee != "strings.Compare" {
-				continue
-			}
-			for _, a := range cs.call.Call.Args {
-				k := fff.term(a).Key()
-				if k == "<p:name>" {
-					direct = true
-				}
-				if c, isC := a.(*ssa.Call); isC && c.Call.StaticCallee() != nil && fnName(c.Call.StaticCallee()) == "capitalizeName" && fff.term(c.Call.Args[0]).Key() == "<p:name>" {
-					capd = true
-				}
-			}
-		}
-		r.add("C05.R2 fields are bound by looked-up name", "findField · compares the Go name with the wire name and its capitalised form", w.pos(ff.Pos()), direct && capd, fmt.Sprintf("direct comparison=%v, capitalised comparison=%v", direct, capd))
-		w.ruleCaseHelper(r, "C05.R2 fields are bound by looked-up name", "capitalizeName", 'a', 'z', -32)
+		w.ruleFindFieldPX(r, "C05.R2 fields are bound by looked-up name", ff)
 	} else {
 		r.undecided("C05.R2 fields are bound by looked-up name", "findField", "-", "anchor not found")
 	}
@@ -1015,119 +935,5 @@ func (w *World) ruleObjectIndexForms(r *Report, rule string) {
 	}
 	w.ruleCompactHeaders(r, rule, wo, 0x60, 0x6f)
 	// readers bounds-check the index
-	w.ruleIndexGuards(r, rule, []string{"(*Decoder).ReadLenTagObject", "(*Decoder).readTagObject"})
-}
-
-// ruleIndexGuards: every element access on a per-stream table of the Decoder
-// in the named functions (or all decoder functions when names is nil) is
-// guarded two-sidedly.
-func (w *World) ruleIndexGuards(r *Report, rule string, names []string) {
-	want := map[string]bool{}
-	for _, n := range names {
-		want[n] = true
-	}
-	n := 0
-	// the named readers together with the helpers they delegate the table access
-	// to: functions they reach without passing through the value dispatch
-	scope := map[*ssa.Function]map[string]bool{}
-	if names != nil {
-		scope = w.helperScopes(names)
-	}
-	served := map[string]bool{}
-	for _, fn := range w.SrcFuncs() {
-		if names != nil && !want[fnName(fn)] && len(scope[fn]) == 0 {
-			continue
-		}
-		if names == nil {
-			recv := fn.Signature.Recv()
-			if recv == nil || !(namedIs(recv.Type(), hessianPath, "Decoder") || namedIs(recv.Type(), hessianPath, "Encoder")) {
-				continue
-			}
-		}
-		f := w.flow(fn)
-		cnt := 0
-		for _, b := range fn.Blocks {
-			for _, in := range b.Instrs {
-				ia, ok := in.(*ssa.IndexAddr)
-				if !ok {
-					continue
-				}
-				owner, fld, ok := w.fieldOfLoad(ia.X)
-				if !ok || (owner != "Decoder" && owner != "Encoder") {
-					continue
-				}
-				if _, isSl := ia.X.Type().Underlying().(*types.Slice); !isSl {
-					continue
-				}
-				n++
-				cnt++
-				for root := range scope[fn] {
-					served[root] = true
-				}
-				env := f.At(b)
-				it := f.term(ia.Index)
-				I, _ := f.Eval(it, env)
-				lower := I != nil && !I.Empty() && I.Min().Sign() >= 0
-				lenKey := "len(" + f.term(ia.X).Key() + ")"
-				upper := false
-				for _, probe := range []struct {
-					k string
-					v int64
-				}{
-					{"(" + it.Key() + " >= " + lenKey + ")", 0}, {"(" + it.Key() + " < " + lenKey + ")", 1},
-					{"(" + lenKey + " <= " + it.Key() + ")", 0}, {"(" + lenKey + " > " + it.Key() + ")", 1},
-				} {
-					if s, has := env[probe.k]; has && s.Equal(single(probe.v)) {
-						upper = true
-					}
-				}
-				r.add(rule, fmt.Sprintf("%s · index #%d into %s.%s", fnName(fn), cnt, owner, w.fieldName(owner, fld)), w.instrPos(ia), lower && upper,
-					fmt.Sprintf("index %s ∈ %s: lower bound proven=%v, dominated by a test against %s=%v", it.Key(), I, lower, lenKey, upper))
-			}
-		}
-	}
-	if names != nil {
-		// floor over the readers served, not over index sites: both index forms
-		// may look the definition up through one helper
-		r.floor(rule+" (readers whose table index use was examined)", len(served), len(names))
-		return
-	}
-	r.floor(rule+" (table index uses)", n, 4)
-}
-
-// helperScopes: for each named function, the function itself and the in-package
-// functions it reaches by static calls through functions that cannot reach the
-// value dispatch (ReadData) — the helpers a reader delegates part of its own
-// work to, as opposed to the readers of nested values.  Result: function ->
-// names of the roots it works for.
-func (w *World) helperScopes(names []string) map[*ssa.Function]map[string]bool {
-	out := map[*ssa.Function]map[string]bool{}
-	reachesRD := w.reachesReadData()
-	for _, name := range names {
-		root := w.fn(name)
-		if root == nil {
-			continue
-		}
-		seen := map[*ssa.Function]bool{}
-		var walk func(fn *ssa.Function)
-		walk = func(fn *ssa.Function) {
-			if seen[fn] {
-				return
-			}
-			seen[fn] = true
-			if out[fn] == nil {
-				out[fn] = map[string]bool{}
-			}
-			out[fn][name] = true
-			for _, cs := range w.callSitesIn(fn) {
-				sc := cs.call.Call.StaticCallee()
-				if sc == nil || !w.inPkg(sc) || sc.Blocks == nil || reachesRD == nil || reachesRD[sc] {
-					continue
-				}
-				walk(sc)
-			}
-		}
-		walk(root)
-	}
-	return out
+	w.ruleIndexGuardsPX(r, rule, []string{"(*Decoder).ReadLenTagObject", "(*Decoder).readTagObject"})
 }
